@@ -54,6 +54,26 @@ theorem rename_missing_source_fails (fl : Flavour) (s : State) (a b : Path)
 example : idAt (run .git init [.mkfile ["a"] "78"]).disk ["zz"] = none ∧
     (idAt (run .git init [.mkfile ["a"] "78"]).disk ["a"]).isSome = true := by decide +kernel
 
+/-- `unversion` of a path that is on disk but not versioned fails (NoSuchFile), where
+`remove` silently does nothing -/
+theorem unversion_not_versioned_fails (fl : Flavour) (s : State) (p : Path) (i : Id)
+    (h : idAt s.disk p = some i) (hv : isVer s i = false) :
+    step fl s (.unversion p) = (s, .err) ∧ step fl s (.remove p false) = (s, .ok) := by
+  simp [step, stepOk, h, hv]
+
+/-- on a versioned path `unversion` is `remove(keep_files=True)`: same state, both succeed -/
+theorem unversion_eq_remove_keep (fl : Flavour) (s : State) (p : Path) (i : Id)
+    (h : idAt s.disk p = some i) (hv : isVer s i = true) (hr : (get s.disk i).bind (·.parent) ≠ none) :
+    step fl s (.unversion p) = step fl s (.remove p false) ∧ (step fl s (.unversion p)).2 = .ok := by
+  simp [step, stepOk, h, hv, hr]
+
+/-- non-vacuity: an unversioned file on disk; a versioned directory with a versioned grandchild -/
+example : (step .git (run .git init [.mkfile ["a"] "78"]) (.unversion ["a"])).2 = .err := by decide +kernel
+example :
+    let s := run .bzr init [.mkdir ["d"], .mkdir ["d", "e"], .mkfile ["d", "e", "f"] "78", .add ["d", "e", "f"]]
+    ((listing (wtTree s)).length, (listing (wtTree (step .bzr s (.unversion ["d"])).1)).length,
+      (listing (step .bzr s (.unversion ["d"])).1.disk).length) = (4, 1, 4) := by decide +kernel
+
 theorem contentChanged_self (n : Node) : contentChanged n n = false := by
   cases n <;> simp [contentChanged]
 
